@@ -23,6 +23,16 @@ UNITS = {
             r'^(lemma_rc_.*|lemma_rcnum.*|lemma_revcomp.*)$': ['C02'],
         },
     },
+    'kmer_kani': {
+        'backend': 'kani', 'crate': 'kmer_h', 'serves': ['C02'],
+        'harnesses': [
+            {'name': 'revcomp_involution', 'complete': True, 'bound': 'k <= 31 (operand width), unwind 33 with unwinding assertions',
+             'claim': 'rev_comp(rev_comp(x,k),k) == x and rev_comp(x,k) < 4^k for all k in 1..=31, x < 4^k'},
+            {'name': 'revcomp_digits', 'complete': True, 'bound': 'k <= 31 (operand width), unwind 33 with unwinding assertions',
+             'claim': 'digit j of x is the complement of digit k-1-j of rev_comp(x,k)'},
+        ],
+        'trusted': ['Kani harnesses link the real kmer crate through a path dependency on /repo/kmer (no extraction)'],
+    },
     'n2k': {
         'template': 'n2k.vrs', 'backend': 'verus',
         'serves': ['C02', 'C03'],
@@ -42,7 +52,7 @@ PROPS = {
         'not_reached': ['pyo3 glue of pybindings/src/kmer.rs (__next__ delegates to the verified next); transmute lifetime extension'],
     },
     'C02': {
-        'units': ['kmer_gen', 'n2k'], 'deps': [], 'replay': 'c02',
+        'units': ['kmer_gen', 'n2k', 'kmer_kani'], 'deps': [], 'replay': 'c02',
         'level_text': 'Verus proves for the verbatim rev_comp and numeric_to_kmer, all k <= 31 and all codes: rev_comp(x,k) equals the arithmetic reverse '
                       'complement rc_num (loop invariant over the accumulator form), rc_num is an involution below 4^k and equals the code of the '
                       'reverse-complemented text; decoding gives k letters over ACGT that re-encode to x mod 4^k; every pair of the iterator stream has '
